@@ -6,7 +6,7 @@ use kurbo::{Affine, BezPath, Circle, CircleSegment, Ellipse, Line, PathSeg, Poin
 use std::f64::consts::PI;
 
 pub fn prop() -> Prop {
-    Prop { id: "C11", corr, laws, extra, law_budget: (60, 1500) }
+    Prop { id: "C11", corr, laws, extra, law_budget: (200, 12000) }
 }
 
 // ------------------------------------------------------------------ generators
@@ -32,22 +32,24 @@ fn grid_rect(r: &mut Rng) -> Rect {
 }
 fn g_radii(r: &mut Rng, rect: Rect) -> [f64; 4] {
     let m = rect.width().abs().min(rect.height().abs()) / 2.0;
-    let uniform = r.chance(1, 4);
+    let mode = r.below(8);
     let first = r.uniform(0.0, 1.0) * m;
     let mut out = [0.0; 4];
     for q in out.iter_mut() {
-        *q = match r.below(9) {
-            0 => 0.0,
-            1 => m,
-            2 => m * 1.5 + 0.25,
-            3 => -m * r.unit(),
-            4 => 1e3,
-            5 => r.range_i(0, 8) as f64 / 4.0,
-            _ => m * r.unit(),
+        *q = match mode {
+            // all four different and kept: the quadrant selection matters
+            0..=3 => m * r.uniform(0.05, 1.0) * if r.chance(1, 6) { -1.0 } else { 1.0 },
+            4 => first,
+            _ => match r.below(7) {
+                0 => 0.0,
+                1 => m,
+                2 => m * 1.5 + 0.25,
+                3 => -m * r.unit(),
+                4 => 1e3,
+                5 => r.range_i(0, 8) as f64 / 4.0,
+                _ => m * r.unit(),
+            },
         };
-        if uniform {
-            *q = first;
-        }
     }
     out
 }
@@ -59,8 +61,8 @@ fn rr_point(r: &mut Rng, rr: &RoundedRect) -> Point {
     let rect = rr.rect();
     let c = rect.center();
     let q = rr.radii();
-    match r.below(8) {
-        0 | 1 => {
+    match r.below(10) {
+        0..=3 => {
             let k = r.below(4);
             let (rad, cx, cy) = match k {
                 0 => (q.top_left, rect.x0 + q.top_left, rect.y0 + q.top_left),
@@ -68,14 +70,15 @@ fn rr_point(r: &mut Rng, rr: &RoundedRect) -> Point {
                 2 => (q.bottom_right, rect.x1 - q.bottom_right, rect.y1 - q.bottom_right),
                 _ => (q.bottom_left, rect.x0 + q.bottom_left, rect.y1 - q.bottom_left),
             };
-            let th = r.uniform(0.0, 2.0 * PI);
-            let f = *r.pick(&[0.5, 0.9, 0.999, 1.001, 1.1, 1.5]);
+            // towards the outside of corner k, at a multiple of its radius from the corner centre
+            let th = r.uniform(0.0, PI / 2.0) + [PI, 1.5 * PI, 0.0, 0.5 * PI][k as usize];
+            let f = *r.pick(&[0.5, 0.9, 0.999, 1.001, 1.1, 1.3]);
             Point::new(cx + f * rad * th.cos(), cy + f * rad * th.sin())
         }
-        2 => Point::new(c.x, r.uniform(rect.y0 - 1.0, rect.y1 + 1.0)),
-        3 => Point::new(r.uniform(rect.x0 - 1.0, rect.x1 + 1.0), c.y),
-        4 => Point::new(half(r), half(r)),
-        5 => Point::new(*r.pick(&[rect.x0, rect.x1, c.x]), *r.pick(&[rect.y0, rect.y1, c.y])),
+        4 => Point::new(c.x, r.uniform(rect.y0 - 1.0, rect.y1 + 1.0)),
+        5 => Point::new(r.uniform(rect.x0 - 1.0, rect.x1 + 1.0), c.y),
+        6 => Point::new(half(r), half(r)),
+        7 => Point::new(*r.pick(&[rect.x0, rect.x1, c.x]), *r.pick(&[rect.y0, rect.y1, c.y])),
         _ => Point::new(r.uniform(rect.x0 - 1.0, rect.x1 + 1.0), r.uniform(rect.y0 - 1.0, rect.y1 + 1.0)),
     }
 }
@@ -159,8 +162,56 @@ fn agm_ticks<F: FnOnce() -> f64>(f: F) -> (f64, u64) {
 
 // ------------------------------------------------------------------ correspondence
 
+/// the pinned `agm_elliptic_perimeter` (ellipse.rs 371-430), to tell which variant the crate under test has
+fn agm_pinned(accuracy: f64, rx: f64, ry: f64) -> f64 {
+    let (x, y) = if rx >= ry { (rx, ry) } else { (ry, rx) };
+    let accuracy = accuracy / (2. * PI * x);
+    let (mut sum, mut a, mut g, mut mul) = (1., 1., y / x, 0.5);
+    let mut c = (1. - g.powi(2)).sqrt();
+    loop {
+        let term = mul * c.powi(2);
+        sum -= term;
+        if term <= accuracy * g {
+            sum -= term;
+            break;
+        }
+        mul *= 2.;
+        c = (a - g) / 2.;
+        let a_next = (a + g) / 2.;
+        g = (a * g).sqrt();
+        a = a_next;
+    }
+    2. * PI * x / a * sum
+}
+
+/// Which of the three behaviours the property text reports as defects does the crate under test show?
+/// The Coq side has a model of either variant (`..._pinned` = the pinned code, unsuffixed = the required
+/// behaviour = the code with proposed_fixes/C11-*.diff); the correspondence runs against the matching one.
+/// The defects themselves are reported by the laws, never by this choice.
+struct Variant {
+    cseg_fixed: bool,
+    tri_fixed: bool,
+    agm_fixed: bool,
+}
+fn detect_variant() -> Variant {
+    let cs = CircleSegment::new((0.0, 0.0), 2.0, 1.0, PI / 2.0, 1.5 * PI);
+    let (acc, rad) = (0.07943282347242814, Vec2::new(30.199517204020164, 0.1));
+    Variant {
+        cseg_fixed: cs.winding(Point::new(0.0, -1.5)) == 1,
+        tri_fixed: Triangle::ZERO.winding(Point::new(5.0, 5.0)) == 0,
+        agm_fixed: kurbo::verif::verif_agm_elliptic_perimeter(acc, rad) != agm_pinned(acc, rad.x, rad.y),
+    }
+}
+
 fn corr(r: &mut Rng, thorough: bool, o: &mut Out) {
-    let n = if thorough { 1200 } else { 110 };
+    let n = if thorough { 3000 } else { 130 };
+    let var = detect_variant();
+    o.notes.push(format!(
+        "variant of the crate under test: CircleSegment::winding {}, Triangle::winding {}, agm_elliptic_perimeter {}",
+        if var.cseg_fixed { "reduces the angle (required)" } else { "pinned" },
+        if var.tri_fixed { "rejects zero-area triangles (required)" } else { "pinned" },
+        if var.agm_fixed { "iterates the mean to convergence (required)" } else { "pinned" }
+    ));
     for _ in 0..n {
         // --- RoundedRect
         let rect = g_rect(r);
@@ -177,7 +228,7 @@ fn corr(r: &mut Rng, thorough: bool, o: &mut Out) {
             rect.width() != 0.0 && rect.height() != 0.0,
             if clamped { "radii-clamped" } else { "radii-kept" },
         );
-        for _ in 0..3 {
+        for _ in 0..6 {
             let p = rr_point(r, &rr);
             o.case(2, "rounded_rect:winding", cat(&a8, &[p.x, p.y]), vec![rr.winding(p) as f64], rect.width() != 0.0 && rect.height() != 0.0, &rr_tag(&rr, p));
         }
@@ -210,14 +261,19 @@ fn corr(r: &mut Rng, thorough: bool, o: &mut Out) {
         // winding reaches atan2: generic inputs only
         for _ in 0..2 {
             let cs = CircleSegment::new((r.generic(-3, 5), r.generic(-3, 5)), outer.max(0.37) * (1.0 + r.unit()), inner.max(0.11) * (1.0 + 0.1 * r.unit()), r.uniform(-10.0, 10.0), sweep + 1e-3 * r.unit());
-            let (th, f) = (r.uniform(-PI, PI), r.uniform(0.05, 1.6));
-            let big = cs.outer_radius.max(cs.inner_radius);
-            let p = Point::new(cs.center.x + f * big * th.cos(), cs.center.y + f * big * th.sin());
+            // half of the points inside the angular range and the band
+            let (lo, big) = (cs.outer_radius.min(cs.inner_radius), cs.outer_radius.max(cs.inner_radius));
+            let (th, rho) = if r.bool() {
+                (cs.start_angle + cs.sweep_angle * r.uniform(0.03, 0.97), lo + (big - lo) * r.uniform(0.03, 0.97))
+            } else {
+                (r.uniform(-PI, PI), big * r.uniform(0.05, 1.6))
+            };
+            let p = Point::new(cs.center.x + rho * th.cos(), cs.center.y + rho * th.sin());
             let w = cs.winding(p);
             let cross = cs.start_angle + cs.sweep_angle.max(0.0) > PI || cs.start_angle + cs.sweep_angle.min(0.0) < -PI;
             o.case(
-                6,
-                "circle_segment:winding",
+                if var.cseg_fixed { 6 } else { 106 },
+                if var.cseg_fixed { "circle_segment:winding" } else { "circle_segment:winding(pinned)" },
                 vec![cs.center.x, cs.center.y, cs.outer_radius, cs.inner_radius, cs.start_angle, cs.sweep_angle, p.x, p.y],
                 vec![w as f64],
                 true,
@@ -275,13 +331,13 @@ fn corr(r: &mut Rng, thorough: bool, o: &mut Out) {
             } else {
                 format!("agm-{}-rounds", ticks)
             };
-            o.case(11, "ellipse:perimeter", cat(&m, &[acc]), vec![1.0, pv], ticks > 0, &tag);
+            o.case(if var.agm_fixed { 11 } else { 111 }, if var.agm_fixed { "ellipse:perimeter" } else { "ellipse:perimeter(pinned)" }, cat(&m, &[acc]), vec![1.0, pv], ticks > 0, &tag);
             let (x, y) = (10f64.powf(r.uniform(-2.0, 2.0)), 10f64.powf(r.uniform(-2.0, 2.0)));
             let (x, y) = if r.chance(1, 6) { (x, x) } else { (x, y) };
             let rv2 = Vec2::new(x, y);
             o.case(12, "ellipse:kummer", vec![x, y], vec![kurbo::verif::verif_kummer_elliptic_perimeter(rv2), kurbo::verif::verif_kummer_elliptic_perimeter_range(rv2)], x != y, "");
             let (pv, ticks) = agm_ticks(|| kurbo::verif::verif_agm_elliptic_perimeter(acc, rv2));
-            o.case(13, "ellipse:agm", vec![acc, x, y], vec![1.0, pv], ticks > 1, &format!("{}{}-rounds", if x >= y { "" } else { "swapped/" }, ticks));
+            o.case(if var.agm_fixed { 13 } else { 113 }, if var.agm_fixed { "ellipse:agm" } else { "ellipse:agm(pinned)" }, vec![acc, x, y], vec![1.0, pv], ticks > 1, &format!("{}{}-rounds", if x >= y { "" } else { "swapped/" }, ticks));
         }
         // --- Triangle
         let t6 = g_tri(r);
@@ -305,7 +361,7 @@ fn corr(r: &mut Rng, thorough: bool, o: &mut Out) {
                 _ => Point::new(r.uniform(bb.x0 - 1.0, bb.x1 + 1.0), r.uniform(bb.y0 - 1.0, bb.y1 + 1.0)),
             };
             let w = t.winding(p);
-            o.case(16, "triangle:winding", cat(&t6, &[p.x, p.y]), vec![w as f64], true, &format!("{}/w={}", if Triangle::area(&t) == 0.0 { "area=0" } else { "area!=0" }, w));
+            o.case(if var.tri_fixed { 16 } else { 116 }, if var.tri_fixed { "triangle:winding" } else { "triangle:winding(pinned)" }, cat(&t6, &[p.x, p.y]), vec![w as f64], true, &format!("{}/w={}", if Triangle::area(&t) == 0.0 { "area=0" } else { "area!=0" }, w));
             // the outline's own ray cast, on grid coordinates (exact arithmetic on both sides)
             if t6.iter().all(|v| *v == (*v * 2.0).round() / 2.0 && v.abs() <= 64.0) {
                 let gp = Point::new(half(r), half(r));
@@ -462,8 +518,21 @@ fn ref_perimeter_f64(x: f64, y: f64) -> f64 {
 
 // ------------------------------------------------------------------ laws
 
+/// A law failure. The shared collector keeps the first 200 violations of a run; so that one frequent
+/// class does not crowd out the others, each class is reported at most 25 times per run (the replay
+/// mode evaluates a single input and is not affected).
+static SEEN: std::sync::Mutex<Option<std::collections::HashMap<String, u32>>> = std::sync::Mutex::new(None);
 fn fail(class: &str, d: String) -> Option<(String, String)> {
+    let mut g = SEEN.lock().unwrap_or_else(|e| e.into_inner());
+    let n = g.get_or_insert_with(std::collections::HashMap::new).entry(class.to_string()).or_insert(0);
+    *n += 1;
+    if *n > 25 {
+        return None;
+    }
     Some((class.to_string(), d))
+}
+fn reset_fail_counts() {
+    *SEEN.lock().unwrap_or_else(|e| e.into_inner()) = None;
 }
 fn close(a: f64, b: f64, tol: f64) -> bool {
     (a - b).abs() <= tol
@@ -499,6 +568,25 @@ fn scalar_queries<S: Shape>(name: &str, s: &S, path: &BezPath, want_area_sign: O
         return fail(&format!("{}:perimeter", name), format!("closed form {}, outline {}", p, pp));
     }
     None
+}
+
+/// `BezPath::winding` as an oracle: rows through (or within rounding distance of) a vertex of the outline are
+/// excluded — there the path's own ray cast depends on how the end points of its pieces were rounded (C01's
+/// subject), which says nothing about the closed form.
+fn path_winding_off_vertex_rows(path: &BezPath, p: Point, sc: f64) -> Option<i32> {
+    for el in path.elements() {
+        let v = match el {
+            kurbo::PathEl::MoveTo(a) | kurbo::PathEl::LineTo(a) => Some(*a),
+            kurbo::PathEl::QuadTo(_, a) | kurbo::PathEl::CurveTo(_, _, a) => Some(*a),
+            kurbo::PathEl::ClosePath => None,
+        };
+        if let Some(v) = v {
+            if (v.y - p.y).abs() <= 1e-9 * sc {
+                return None;
+            }
+        }
+    }
+    Some(path.winding(p))
 }
 
 // --- Rect
@@ -638,7 +726,8 @@ fn law_rounded_rect(x: &[f64]) -> Option<(String, String)> {
     let sc = extent(rect);
     let d = rr_sdf(&rr, p);
     if d.abs() > 1e-6 * sc {
-        let (w, pw) = (rr.winding(p), path.winding(p));
+        let w = rr.winding(p);
+        let pw = path_winding_off_vertex_rows(&path, p, sc).unwrap_or(w);
         if w != pw {
             return fail("rounded-rect-winding:outline", format!("{:?}.winding({:?}) = {}, its outline gives {}", rr, p, w, pw));
         }
@@ -675,7 +764,8 @@ fn law_circle(x: &[f64]) -> Option<(String, String)> {
     let rho = ((p.x - x[0]).powi(2) + (p.y - x[1]).powi(2)).sqrt();
     let r = x[2].abs();
     if (rho - r).abs() > 1e-6 * r.max(1e-3) {
-        let (w, pw) = (c.winding(p), path.winding(p));
+        let w = c.winding(p);
+        let pw = path_winding_off_vertex_rows(&path, p, r.max(1e-3)).unwrap_or(w);
         if w != pw || (w != 0) != (rho < r) || w < 0 {
             return fail("circle-winding", format!("{:?}.winding({:?}) = {}, outline {}, distance {} radius {}", c, p, w, pw, rho, r));
         }
@@ -716,7 +806,8 @@ fn law_circle_segment(x: &[f64]) -> Option<(String, String)> {
     let near_ray = rho * (rel.min(2.0 * PI - rel)).min((rel - sweep).abs()).sin().abs() < tol || (rel - sweep).abs() < 1e-6 || rel < 1e-6 || 2.0 * PI - rel < 1e-6;
     if !near_arc && !near_ray && rho > tol {
         let inside = inner < rho && rho < outer && rel < sweep;
-        let (w, pw) = (cs.winding(p), path.winding(p));
+        let w = cs.winding(p);
+        let pw = path_winding_off_vertex_rows(&path, p, outer.max(1e-3)).unwrap_or(w);
         if w != pw || (w != 0) != inside {
             let leaves = start + sweep > PI || start < -PI;
             return fail(
@@ -759,7 +850,8 @@ fn ellipse_common(name: &str, e: &Ellipse, m: [f64; 6], u: f64, v: f64) -> Optio
     let path = e.to_path(1e-9);
     let n2 = u * u + v * v;
     if (n2 - 1.0).abs() > 1e-5 {
-        let (w, pw) = (e.winding(p), path.winding(p));
+        let w = e.winding(p);
+        let pw = path_winding_off_vertex_rows(&path, p, extent(path.bounding_box())).unwrap_or(w);
         if w != pw || (w != 0) != (n2 < 1.0) || w < 0 {
             return fail(&format!("{}-winding", name), format!("{:?}.winding({:?}) = {}, outline {}, preimage at radius^2 {}", e, p, w, pw, n2));
         }
@@ -857,7 +949,8 @@ fn law_triangle(x: &[f64]) -> Option<(String, String)> {
     let d = seg_dist(t.a, t.b, p).min(seg_dist(t.b, t.c, p)).min(seg_dist(t.c, t.a, p));
     let area = 0.5 * ((t.b.x - t.a.x) * (t.c.y - t.a.y) - (t.b.y - t.a.y) * (t.c.x - t.a.x));
     if d > 1e-7 * sc {
-        let (w, pw) = (t.winding(p), path.winding(p));
+        let w = t.winding(p);
+        let pw = if x.iter().all(|v| on_grid(*v)) { path.winding(p) } else { path_winding_off_vertex_rows(&path, p, sc).unwrap_or(w) };
         // barycentric coordinates, independently
         let l1 = 0.5 * ((t.b.x - p.x) * (t.c.y - p.y) - (t.b.y - p.y) * (t.c.x - p.x)) / area;
         let l2 = 0.5 * ((t.c.x - p.x) * (t.a.y - p.y) - (t.c.y - p.y) * (t.a.x - p.x)) / area;
@@ -924,7 +1017,7 @@ fn laws() -> Vec<Law> {
     vec![
         Law { name: "rect_vs_outline", gen: g_rect_pt, check: law_rect, weight: 3 },
         Law { name: "rect_tiling", gen: g_tiling, check: law_tiling, weight: 3 },
-        Law { name: "rounded_rect_vs_outline", gen: g_rr_pt, check: law_rounded_rect, weight: 2 },
+        Law { name: "rounded_rect_vs_outline", gen: g_rr_pt, check: law_rounded_rect, weight: 4 },
         Law { name: "circle_vs_outline", gen: g_circle_pt, check: law_circle, weight: 1 },
         Law { name: "circle_segment_vs_outline", gen: g_cseg_pt, check: law_circle_segment, weight: 2 },
         Law { name: "ellipse_new_vs_outline", gen: g_ellipse_new, check: law_ellipse_new, weight: 1 },
@@ -1014,5 +1107,26 @@ fn extra(_r: &mut Rng, thorough: bool, o: &mut Out) {
             }
         }
     }
+    // the three defects of the pinned tree, replayed on their witnesses (reported as KNOWN-FINDING only if
+    // known_findings.txt lists the id; otherwise the laws above report them as violations)
+    reset_fail_counts();
+    let w1 = [0.0, 0.0, 2.0, 1.0, 2.5, 1.5, 1.5 * 3.25f64.cos(), 1.5 * 3.25f64.sin()];
+    o.known(
+        "C11-circle-segment-winding",
+        law_circle_segment(&w1).is_some(),
+        "CircleSegment::new((0,0), 2, 1, 2.5, 1.5).winding(point at radius 1.5, angle 3.25) = 0, the outline gives 1 (angular range leaves (-pi, pi])".into(),
+    );
+    let w2 = [30.199517204020164, 0.1, 0.07943282347242814, 0.0];
+    o.known(
+        "C11-ellipse-perimeter-agm",
+        law_perimeter(&w2).is_some(),
+        "Ellipse::new((0,0), (30.1995, 0.1), 0).perimeter(0.0794) misses the true perimeter by 1.086 x the requested accuracy".into(),
+    );
+    let w3 = [0.0, 0.0, 0.0, 0.0, 0.0, 0.0, 5.0, 5.0];
+    o.known(
+        "C11-triangle-degenerate-winding",
+        law_triangle_degenerate(&w3).is_some(),
+        "Triangle::ZERO.winding((5,5)) = 1, the outline gives 0".into(),
+    );
     o.notes.push(format!("exhaustive sweeps: {} rectangle x point configurations against the outline, {} tilings x points", n, 2 * m));
 }
